@@ -17,180 +17,12 @@ use crate::verif_vk as vk;
 use std::collections::{BTreeMap, BTreeSet};
 use std::sync::Arc;
 
-#[derive(Clone, Copy, PartialEq, Debug)]
-enum Scope { Plain, Optional, Fold, FoldCountGe(i64), FoldCountOut, Recurse(usize) }
-#[derive(Clone, Copy, PartialEq, Debug)]
-enum Edge { Pred, Succ, Mult(i64) }
-#[derive(Clone, Copy, PartialEq, Debug)]
-enum Filt { None, Gt(i64), NeRoot, LeRoot }
-#[derive(Clone, Debug)]
-struct Node { edge: Edge, scope: Scope, filter: Filt, out: bool, children: Vec<Node> }
-
-// ---------------------------------------------------------------- dataset (independent of the adapter)
-fn is_prime(n: i64) -> bool { n >= 2 && (2..n).take_while(|d| d * d <= n).all(|d| n % d != 0) }
-fn neighbors(v: i64, e: Edge) -> Vec<i64> {
-    match e {
-        Edge::Pred => if v > 0 { vec![v - 1] } else { vec![] },
-        Edge::Succ => vec![v + 1],
-        Edge::Mult(k) => if v < 2 { vec![] } else if is_prime(v) { (2..=k).map(|m| v * m).collect() } else { (1..=k).map(|m| v * m).collect() },
-    }
-}
-
-// ---------------------------------------------------------------- rendering
-fn render(nodes: &[Node], idx: &mut usize, out: &mut String) {
-    for n in nodes {
-        let my = *idx; *idx += 1;
-        let edge = match n.edge { Edge::Pred => "predecessor".to_string(), Edge::Succ => "successor".to_string(), Edge::Mult(k) => format!("multiple(max: {k})") };
-        let dir = match n.scope {
-            Scope::Plain => String::new(), Scope::Optional => "@optional".into(), Scope::Fold => "@fold".into(),
-            Scope::FoldCountGe(k) => format!(r#"@fold @transform(op: "count") @filter(op: ">=", value: ["$k{k}"])"#),
-            Scope::FoldCountOut => format!(r#"@fold @transform(op: "count") @output(name: "c{my}")"#),
-            Scope::Recurse(d) => format!("@recurse(depth: {d})"),
-        };
-        let filt = match n.filter { Filt::None => String::new(), Filt::Gt(x) => format!(r#"@filter(op: ">", value: ["$x{x}"])"#), Filt::NeRoot => r#"@filter(op: "!=", value: ["%root"])"#.into(), Filt::LeRoot => r#"@filter(op: "<=", value: ["%root"])"#.into() };
-        let o = if n.out { format!("@output(name: \"o{my}\")") } else { String::new() };
-        out.push_str(&format!("{edge} {dir} {{ value {o} {filt} "));
-        render(&n.children, idx, out);
-        out.push_str("} ");
-    }
-}
-fn query_text(nodes: &[Node], lo: i64, hi: i64) -> String {
-    let mut body = String::new();
-    let mut idx = 0;
-    render(nodes, &mut idx, &mut body);
-    let tag = if body.contains("%root") { "@tag(name: \"root\")" } else { "" };
-    format!("{{ Number(min: {lo}, max: {hi}) {{ value @output(name: \"root\") {tag} {body}}} }}")
-}
-
-// ---------------------------------------------------------------- SPEC: row semantics
-type R = BTreeMap<String, FieldValue>;
-fn ival(v: i64) -> FieldValue { FieldValue::Int64(v) }
-fn passes(f: Filt, v: Option<i64>, root: i64) -> bool {
-    let Some(v) = v else { return true }; // filters inside a missing optional scope pass
-    match f { Filt::None => true, Filt::Gt(x) => v > x, Filt::NeRoot => v != root, Filt::LeRoot => v <= root }
-}
-/// all output names of a subtree, every value null (what a missing optional scope produces);
-/// `in_fold`: names produced by a fold under a missing scope are null too, not empty lists.
-fn null_names(nodes: &[Node], idx: &mut usize, out: &mut R) {
-    for n in nodes {
-        let my = *idx; *idx += 1;
-        if n.out { out.insert(format!("o{my}"), FieldValue::Null); }
-        if n.scope == Scope::FoldCountOut { out.insert(format!("c{my}"), FieldValue::Null); }
-        null_names(&n.children, idx, out);
-    }
-}
-fn count_nodes(nodes: &[Node]) -> usize { nodes.iter().map(|n| 1 + count_nodes(&n.children)).sum() }
-
-/// Rows contributed by the sibling edges `nodes` (numbered from `base`) expanded from vertex `v`
-/// (None = inside a missing optional scope). Cartesian product of the siblings, in order.
-fn rows_of_edges(nodes: &[Node], base: usize, v: Option<i64>, root: i64) -> Vec<R> {
-    let mut acc: Vec<R> = vec![R::new()];
-    let mut idx = base;
-    for n in nodes {
-        let my = idx;
-        let size = 1 + count_nodes(&n.children);
-        let sub = rows_of_edge(n, my, v, root);
-        let mut next = Vec::new();
-        for a in &acc { for s in &sub { let mut r = a.clone(); r.extend(s.clone()); next.push(r); } }
-        acc = next;
-        idx += size;
-    }
-    acc
-}
-/// rows of the subtree rooted at the vertex `w` reached through node `n` (own output + filter + children)
-fn rows_at_vertex(n: &Node, my: usize, w: Option<i64>, root: i64) -> Vec<R> {
-    if !passes(n.filter, w, root) { return vec![]; }
-    let mut base = R::new();
-    if n.out { base.insert(format!("o{my}"), w.map(ival).unwrap_or(FieldValue::Null)); }
-    rows_of_edges(&n.children, my + 1, w, root).into_iter().map(|mut r| { r.extend(base.clone()); r }).collect()
-}
-fn lists_from(rows: &[R], names: &R) -> R {
-    // one aligned list per output of the fold's contents
-    names.keys().map(|k| (k.clone(), FieldValue::List(rows.iter().map(|r| r[k].clone()).collect::<Vec<_>>().into()))).collect()
-}
-fn rows_of_edge(n: &Node, my: usize, v: Option<i64>, root: i64) -> Vec<R> {
-    let mut names = R::new();
-    { let mut i = my; null_names(std::slice::from_ref(n), &mut i, &mut names); }
-    match n.scope {
-        Scope::Plain | Scope::Optional => {
-            let Some(v) = v else { return rows_at_vertex(n, my, None, root); }; // still inside the missing scope
-            let ns = neighbors(v, n.edge);
-            if ns.is_empty() { return if n.scope == Scope::Optional { rows_at_vertex(n, my, None, root) } else { vec![] }; }
-            ns.into_iter().flat_map(|w| rows_at_vertex(n, my, Some(w), root)).collect()
-        }
-        Scope::Recurse(d) => {
-            let Some(v) = v else { return rows_at_vertex(n, my, None, root); };
-            // every vertex reachable in 0..=d hops, one row per path
-            let mut frontier = vec![v];
-            let mut all = vec![v];
-            for _ in 0..d { frontier = frontier.iter().flat_map(|x| neighbors(*x, n.edge)).collect(); all.extend(frontier.iter().cloned()); }
-            all.into_iter().flat_map(|w| rows_at_vertex(n, my, Some(w), root)).collect()
-        }
-        Scope::Fold | Scope::FoldCountGe(_) | Scope::FoldCountOut => {
-            let Some(v) = v else { return vec![names]; }; // a fold inside a missing optional: null, not empty
-            let elems: Vec<R> = neighbors(v, n.edge).into_iter().flat_map(|w| rows_at_vertex(n, my, Some(w), root)).collect();
-            if let Scope::FoldCountGe(k) = n.scope { if (elems.len() as i64) < k { return vec![]; } }
-            let mut content_names = names.clone();
-            content_names.remove(&format!("c{my}"));
-            let mut r = lists_from(&elems, &content_names);
-            if n.scope == Scope::FoldCountOut { r.insert(format!("c{my}"), FieldValue::Uint64(elems.len() as u64)); }
-            vec![r]
-        }
-    }
-}
-fn spec_rows(nodes: &[Node], lo: i64, hi: i64) -> Vec<R> {
-    (lo..=hi).flat_map(|root| rows_of_edges(nodes, 0, Some(root), root).into_iter().map(move |mut r| { r.insert("root".into(), ival(root)); r })).collect()
-}
-
-// ---------------------------------------------------------------- enumeration of query trees
-fn leaf_variants() -> Vec<Node> {
-    let mut v = Vec::new();
-    for edge in [Edge::Pred, Edge::Succ, Edge::Mult(3)] {
-        for scope in [Scope::Plain, Scope::Optional, Scope::Fold, Scope::FoldCountGe(1), Scope::FoldCountGe(2), Scope::FoldCountOut, Scope::Recurse(2)] {
-            if matches!(scope, Scope::Recurse(_)) && matches!(edge, Edge::Mult(_)) { continue; } // multiple() is not recursable
-            for filter in [Filt::None, Filt::Gt(2), Filt::NeRoot, Filt::LeRoot] { v.push(Node { edge, scope, filter, out: true, children: vec![] }); }
-        }
-    }
-    v
-}
-fn key(r: &R) -> String { format!("{r:?}") }
-
-fn check_family(name: &str, trees: Vec<Vec<Node>>, lo: i64, hi: i64) {
-    let mut n = 0u64;
-    let mut failures = BTreeSet::new();
-    for nodes in trees {
-        let q = query_text(&nodes, lo, hi);
-        vk::grid_case(format_args!("{}", q));
-        let args = [("x2", FieldValue::Int64(2)), ("k1", FieldValue::Int64(1)), ("k2", FieldValue::Int64(2))];
-        let used: Vec<(&str, FieldValue)> = args.iter().filter(|(k, _)| q.contains(&format!("${k}"))).cloned().collect();
-        match run_numbers(&q, &used, 100_000) {
-            Run::Rows(_, rows) => {
-                let mut got: Vec<String> = rows.iter().map(|r: &Row| key(&r.iter().map(|(k, v)| (k.to_string(), v.clone())).collect::<R>())).collect();
-                let mut want: Vec<String> = spec_rows(&nodes, lo, hi).iter().map(key).collect();
-                got.sort(); want.sort();
-                if got != want {
-                    let shape: Vec<String> = nodes.iter().map(|n| format!("{:?}", n)).collect();
-                    failures.insert(format!("rows differ from the declarative semantics ({} rows, spec {}) for {}", got.len(), want.len(), shape.join(" + ").replace("children: []", "")));
-                }
-            }
-            Run::Panic(m) => { failures.insert(format!("panic({}) for {}", m.lines().next().unwrap_or(""), q)); }
-            Run::FrontendError(e) => { failures.insert(format!("harness query rejected ({e}): {q}")); }
-            Run::ArgumentError(e) => { failures.insert(format!("harness arguments rejected ({e}): {q}")); }
-        }
-        n += 1;
-    }
-    vk::grid_done(name, n);
-    if !failures.is_empty() { panic!("engine differs from the declarative semantics: {{{}}}", failures.into_iter().take(8).collect::<Vec<_>>().join("; ")); }
-}
+use crate::verif_family::*;
 
 // @grid c01_grid_semantics_depth1_and_pairs tier=quick bound="numbers 0..6; every single edge (3 edges x 7 scopes x 4 filters, tags on the root) and every ordered pair of sibling edges drawn from a 20-variant subset"
 // @ob the multiset of result rows equals the declarative semantics: edges expand to all neighbours, filters keep exactly the satisfying rows, @optional keeps rows whose edge is missing with null outputs (filters inside pass), @fold yields one aligned list per output (null inside a missing optional) with its count and count filters, @recurse(depth d) yields every vertex reachable in 0..d hops, tags from the root are visible inside folds
 pub(crate) fn c01_grid_semantics_depth1_and_pairs() {
-    let leaves = leaf_variants();
-    let mut trees: Vec<Vec<Node>> = leaves.iter().map(|l| vec![l.clone()]).collect();
-    let subset: Vec<Node> = leaves.iter().enumerate().filter(|(i, _)| i % 4 == 0 || i % 7 == 3).map(|(_, l)| l.clone()).collect();
-    for a in &subset { for b in &subset { trees.push(vec![a.clone(), b.clone()]); } }
-    check_family("c01_grid_semantics_depth1_and_pairs", trees, 0, 6);
+    check_family("c01_grid_semantics_depth1_and_pairs", family_depth1_and_pairs(), 0, 6);
 }
 
 // @grid c01_grid_semantics_nested tier=quick bound="numbers 0..5; 2-level nestings (27 outer x 80 inner variants; plus every fold/optional outer without an output of its own x 80 inner) and 3-level chains over 8 scope/edge variants"
